@@ -24,8 +24,11 @@ impl Workload {
     /// Structural invariants the generator keeps (they are limits of the system
     /// under test's *supported* surface, not of the property): at most one
     /// worldline has staged work when a `Tick` runs (a filesystem WAL refuses
-    /// multi-head tick batches with a typed error), and an intent cites only
-    /// parents that were ticked before its `Submit` in op order.
+    /// multi-head tick batches with a typed error), an intent cites only
+    /// parents that were ticked before its `Submit` in op order, and every
+    /// `Tick` has staged work (an idle pass advances the in-memory GlobalTick
+    /// without a WAL record, so it is not a durable fact and would make the
+    /// cycle stamps of later receipts incomparable across a crash).
     pub fn generate(rng: &mut Rng, n_intents: usize) -> Self {
         let n_worldlines = rng.range(1, 2) as u8;
         let mut intents: Vec<IntentSpec> = Vec::new();
@@ -41,8 +44,9 @@ impl Workload {
                 let worldline = rng.below(u64::from(n_worldlines)) as u8;
                 let mut parents = Vec::new();
                 let mut fake_parent = None;
+                let want_parent = !intents.iter().any(|i| !i.parents.is_empty());
                 match rng.below(4) {
-                    0 if !decided.is_empty() => {
+                    0 | 2 | 3 if !decided.is_empty() && (want_parent || rng.chance(1, 3)) => {
                         let cands: Vec<usize> = decided
                             .iter()
                             .copied()
@@ -96,11 +100,6 @@ impl Workload {
             } else if !staged.is_empty() {
                 ops.push(Op::Tick);
                 decided.append(&mut staged);
-                if rng.chance(1, 5) {
-                    ops.push(Op::Tick); // idle pass
-                }
-            } else if rng.chance(1, 8) {
-                ops.push(Op::Tick); // idle pass
             }
             if ops.len() > 200 {
                 break;
@@ -378,10 +377,28 @@ pub fn exec_op(
                 Err(e) => (false, format!("err:{e:?}")),
             }
         }
-        Op::Tick => match host.tick_once() {
-            Ok(steps) => (true, format!("tick:{}", steps.len())),
-            Err(e) => (false, format!("err:{e:?}")),
-        },
+        Op::Tick => {
+            // The host-side operator loop derives "is there staged work" from the
+            // host itself (its own memory does not survive a crash): a retried
+            // session skips passes whose work is already decided.
+            let staged = mem.ids.iter().flatten().any(|id| {
+                matches!(
+                    host.app().observe_intent_outcome(id),
+                    IntentOutcome::Pending {
+                        ticketed_ingress_id: Some(_),
+                        ..
+                    }
+                )
+            });
+            if staged {
+                match host.tick_once() {
+                    Ok(steps) => (true, format!("tick:{}", steps.len())),
+                    Err(e) => (false, format!("err:{e:?}")),
+                }
+            } else {
+                (true, "tick-skipped:no-staged-work".to_owned())
+            }
+        }
     };
     Ok(OpRecord {
         index,
